@@ -22,6 +22,7 @@ import (
 	"runtime/debug"
 	"strings"
 	"sync"
+	"sync/atomic"
 	"testing"
 	"time"
 
@@ -220,6 +221,7 @@ func TestVFC05DHCPPrograms(t *testing.T) {
 		}
 
 		var wg sync.WaitGroup
+		var progress atomic.Int64
 		start := make(chan struct{})
 		spawn := func(steps []vfC05DStep) {
 			wg.Add(1)
@@ -228,6 +230,7 @@ func TestVFC05DHCPPrograms(t *testing.T) {
 				<-start
 				for _, st := range steps {
 					do(st)
+					progress.Add(1)
 					runtime.Gosched()
 				}
 			}()
@@ -244,12 +247,10 @@ func TestVFC05DHCPPrograms(t *testing.T) {
 		done := make(chan struct{})
 		go func() { wg.Wait(); close(done) }()
 		close(start)
-		select {
-		case <-done:
-		case <-time.After(60 * time.Second):
+		if !vfkit.WaitProgress(done, &progress, 60*time.Second) {
 			buf := make([]byte, 1<<20)
 			n := runtime.Stack(buf, true)
-			t.Fatalf("stall: the DHCP program did not finish within 60s\n%s", buf[:n])
+			t.Fatalf("stall: the DHCP program completed no operation for 60s\n%s", buf[:n])
 		}
 
 		// quiescent end state: every address and every hardware address at
